@@ -165,7 +165,9 @@ HOSTKEYS = {'ssh-ed25519': {'t': 'ed25519'}, 'ssh-rsa': {'t': 'rsa', 'bits': 204
             'ssh-rsa-cert-v01@openssh.com': {'t': 'cert', 'kind': 'ssh-rsa-cert-v01@openssh.com', 'bits': 3072, 'ca': {'t': 'rsa', 'bits': 4096}}}
 FAULTS = ['close', 'stall', 'reset', ['trunc', 7, 'close'], ['trunc', 7, 'stall'], ['type', 99], ['reframe_trunc', 3], ['set_len', 0x1234], ['dup'], ['debug', 3], ['payload', '\x1f\x00\x00\x00\x00']]
 WHATS = ['connect', 'banner', 'kexinit', 'kexdh_reply', 'gex_group', 'gex_reply']
-RATES = ['normal', 'normal', 'close', 'stall', 'reset', 'refuse', 'greet:Exceeded MaxStartups\r\n', 'greet:HTTP/1.1 400 Bad Request\r\n\r\n', 'greet:SSH', 'greet:\x00\x00\x00\x00']
+RATES = ['normal', 'normal', 'close', 'stall', 'reset', 'refuse', 'greet:Exceeded MaxStartups\r\n', 'greet:HTTP/1.1 400 Bad Request\r\n\r\n', 'greet:SSH', 'greet:\x00\x00\x00\x00',
+         # servers that answer only some of the rate-check connections (every k-th gets a banner)
+         'mixed:2:close', 'mixed:5:close', 'mixed:8:greet:Exceeded MaxStartups\r\n', 'mixed:3:reset', 'mixed:3:refuse', 'mixed:4:stall', 'mixed:13:close']
 
 
 def strat_case():
@@ -217,5 +219,5 @@ def run(ctx):
             ab.append({'kind': 'ab', 'spec': dict(base, kex=kexes), 'rate_behaviour': beh})
     ctx.map(ab, chunk=1)
     ctx.note(rate_grid_cases=len(grid), traces_validated_against_impl=len(ab))
-    return ctx.finish('fault_enumeration', 'Hypothesis servers: 1-5 key exchanges (probe-capable, GEX, unknown), 1-8 host-key types over the whole probe table, every moduli subset x 3 selection styles, 0-2 faults (close / stall / reset / truncation / wrong type / garbage / duplicate / debug messages) on any message of connections 0-5, behaviour towards the rate check (answers, closes at once, stalls, greets with MaxStartups / HTTP / partial / binary text), with and without --skip-rate-test, standard and policy audits; plus a dedicated rate-check grid; invariants over the connection log; non-trivial = at least 3 connections or a misbehaving server',
+    return ctx.finish('fault_enumeration', 'Hypothesis servers: 1-5 key exchanges (probe-capable, GEX, unknown), 1-8 host-key types over the whole probe table, every moduli subset x 3 selection styles, 0-2 faults (close / stall / reset / truncation / wrong type / garbage / duplicate / debug messages) on any message of connections 0-5, behaviour towards the rate check (answers, closes at once, stalls, resets, refuses, greets with MaxStartups / HTTP / partial / binary text, or answers only every k-th connection), with and without --skip-rate-test, standard and policy audits; plus a dedicated rate-check grid; invariants over the connection log; non-trivial = at least 3 connections or a misbehaving server',
                       assumptions=['the virtual clock advances a fixed quantum per clock read and by the timeout per empty select, so the 1.5 s rate-check window always ends', 'sockets reclaimed by the garbage collector count as closed at exit'])
